@@ -1,7 +1,7 @@
 #!/bin/bash
 # runs the thorough tier of every property sequentially; summary in .cache/thorough_summary.txt
 : > /verif/.cache/thorough_summary.txt
-for p in C11 C14 C17 C18 C19 C09 C10 C06 C15 C01 C02 C05 C12 C03 C04 C07 C08 C13 C16 C20; do
+for p in ${@:-C14 C19 C11 C17 C18 C15 C09 C10 C06 C13 C16 C08 C12 C03 C20 C07 C04 C01 C02 C05}; do
   t0=$(date +%s)
   timeout 7200 /verif/check $p --tier thorough > /verif/.cache/thorough_$p.log 2>&1
   rc=$?
